@@ -109,24 +109,27 @@ def run(ctx):
     # Y2: direction + decimals tables (shared with C14)
     check_pair_directions(ctx, model, rule="C03-Y2")
     check_deposit_helpers(ctx, model)
-    # Y3: deposit helper operand order
+    # Y3: deposit helper operand order: deposit_i is the amount found for pools[i]'s asset (pool order, whatever order the
+    # caller listed the assets in) and pool_i is pools[i].amount
+    from .stablemath import deposit_pool_index
     w = ctx.view(PL, "C03-Y3")
     if w is not None:
-        for rx, want, what in ((r"helpers::compute_lp_mint_amount_for_stableswap_deposit$", {1: ("dep", 0), 2: ("dep", 1), 3: ("pool", 0), 4: ("pool", 1)}, "mint helper"),
-                               (r"helpers::compute_d$", {1: ("dep", 0), 2: ("dep", 1)}, "first-deposit compute_d")):
+        for rx, dep_args, pool_args, what in ((r"helpers::compute_lp_mint_amount_for_stableswap_deposit$", (1, 2), (3, 4), "mint helper"),
+                                             (r"helpers::compute_d$", (1, 2), (), "first-deposit compute_d")):
             calls = w.calls_to(rx)
             if not calls:
                 ctx.missing("C03-Y3", "%s call in provide_liquidity" % what)
                 continue
             for b, t in calls:
-                got = {}
-                for argi in want:
-                    os_ = w.origins_of_operand(t["args"][argi], at=w.at_term(b), taint=True)
-                    kind = "pool" if any(o.kind == "call" and o.a.endswith("query_pools") for o in os_) else ("dep" if any(o.kind == "param" and "Asset" in w.local_ty(o.a) for o in os_) else "?")
-                    idx = _array_index(w, t["args"][argi], w.at_term(b))
-                    got[argi] = (kind, idx)
-                ctx.ob("C03-Y3", "%s|%s|operand-order" % (PL, what), got == want,
-                       "%s called with %s (expected %s)" % (what, got, want), w.where(b))
+                deps_ = [deposit_pool_index(w, model, t["args"][ai], w.at_term(b)) for ai in dep_args]
+                pools_ = []
+                for ai in pool_args:
+                    os_ = w.origins_of_operand(t["args"][ai], at=w.at_term(b))
+                    pools_.append(sorted({o.proj[0] for o in os_ if o.kind == "call" and o.a.endswith("query_pools") and len(o.proj) == 2 and o.proj[1] == "amount"}) or ["?"])
+                want_d = [["[%d]" % i] for i in range(len(dep_args))]
+                want_p = [["[%d]" % i] for i in range(len(pool_args))]
+                ctx.ob("C03-Y3", "%s|%s|operand-order" % (PL, what), deps_ == want_d and pools_ == want_p,
+                       "%s called with deposits matched against pools%s and pool amounts pools%s (expected %s and %s)" % (what, deps_, pools_, want_d, want_p), w.where(b))
 
 
 def _array_index(v, operand, at):
@@ -184,7 +187,8 @@ def check_deposit_helpers(ctx, model):
     w = ctx.view(CD, "C03-Y5")
     if w is not None:
         check_symmetric(ctx, "C03-Y5", w, (2, 3), CD)
-    from .stablemath import check_newton_step
+    from .stablemath import check_newton_step, check_solver_bounds_agree
+    check_solver_bounds_agree(ctx, "C03-Y5")
     nd = ctx.view("terraswap_pair::helpers::compute_next_d", "C03-Y5")
     if nd is not None:
         check_newton_step(ctx, "C03-Y5", nd, "param(1)", "param(2)", "param(3)", "param(4)", "param(5)", "terraswap_pair::helpers::compute_next_d")
